@@ -187,6 +187,13 @@ static void mode_read(fm_t* m, uint64_t* nontrivial)
                 uint64_t v = read_one(m, fld, path, "random");
                 if (v != lastv) { distinct++; lastv = v; }
             }
+            /* every value of a small field (width <= 12) on a random background: exhaustive in the field's own bits */
+            if (fld->width > 0 && fld->width <= 12) {
+                for (uint64_t val = 0; val < ((uint64_t)1 << fld->width); val++) {
+                    vp_rng_fill(&m->c->rng, hdr, n); bf_set(hdr, fld->pos, fld->width, val); fm_load(m, hdr, n);
+                    read_one(m, fld, path, "every-value");
+                }
+            }
             if (distinct > 1) (*nontrivial)++;
         }
     }
@@ -245,6 +252,15 @@ static void mode_write(fm_t* m, uint64_t* nontrivial)
             for (uint64_t r = 0; r < g_reps; r++) {
                 vp_rng_fill(&m->c->rng, hdr, n); fm_load(m, hdr, n);
                 write_one(m, fld, path, vp_value_class(&m->c->rng, 12 + (uint32_t)(r & 1), fld->width), &changed);
+            }
+            /* every value of a small field (width <= 12), also with garbage above the field width */
+            if (fld->width > 0 && fld->width <= 12) {
+                for (uint64_t val = 0; val < ((uint64_t)1 << fld->width); val++) {
+                    vp_rng_fill(&m->c->rng, hdr, n); fm_load(m, hdr, n);
+                    write_one(m, fld, path, val, &changed);
+                    vp_rng_fill(&m->c->rng, hdr, n); fm_load(m, hdr, n);
+                    write_one(m, fld, path, val | (vp_rng_next(&m->c->rng) << fld->width), &changed);
+                }
             }
             if (changed) (*nontrivial)++;
         }
